@@ -329,6 +329,16 @@ void misc_case(i64 op_, i64 a_, i64 b_, i64 c_)
       ED const b = fcppt::either::bind(pass<RV>(src2), [](ED x) { return x; });
       chk(code(b) == want, "either::join|equals-bind-identity", [&] { return "bind(#" + std::to_string(k) + ", id) = " + ename(code(b)); });
     });
+    {
+      // a NON-CONST lvalue argument: join is a pure function of its argument, which is the same
+      // value afterwards (it must not be hollowed out by a move)
+      EED src = mkee(k);
+      ED const r = fcppt::either::join(src);
+      chk(code(r) == want, "either::join|result|non-const-lvalue", [&] { return "lvalue join(#" + std::to_string(k) + ") = " + ename(code(r)); });
+      chk(src == mkee(k), "either::join|non-const-lvalue-argument|modified", [&] { return "join(#" + std::to_string(k) + ") changed its non-const lvalue argument"; });
+      ED const again = fcppt::either::join(src);
+      chk(code(again) == want, "either::join|result|second-call-on-the-same-lvalue", [&] { return "second lvalue join(#" + std::to_string(k) + ") = " + ename(code(again)) + ", expected " + ename(want); });
+    }
     break;
   }
   case 1: // from_optional(o, -> failure)
